@@ -50,6 +50,7 @@ class World:
         self._n = 0
         self.obs = []
         self.notes = {}
+        self.n_lemmas = 0
         self.n_struct = 0  # equalities closed by structural identity of the two terms
 
     # ------------------------------------------------------------------ inputs
@@ -224,6 +225,27 @@ class World:
     # ------------------------------------------------------------------ obligations
     def ob(self, key, cond, chain=False, info=None):
         self.obs.append(Ob(key, cond, chain, info))
+
+    def lemma_eq(self, key, a, b):
+        """an equality obligation that is decided *now* and, if it holds on this path, handed to the
+        path's solver as a lemma (sound: it was proved under the same assumptions).  Used where the
+        code under test later branches on quantities that are only equal modulo nonlinear reasoning."""
+        cond = self.eq(a, b)
+        if not self.sym or cond is True:
+            self.obs.append(Ob(key, cond))
+            return
+        from .runner import prove_now
+        ok, model_inputs = prove_now(self.ctx, self, cond)
+        if ok is True:
+            self.obs.append(Ob(key, True, info="lemma"))
+            self.n_lemmas += 1
+            self.ctx.assume(cond)
+            if isinstance(cond, EqBool) and not z3.is_rational_value(cond.lhs) and not z3.is_const(cond.lhs):
+                self.ctx.subst.append((cond.lhs, cond.rhs))
+        elif ok is False:
+            self.obs.append(Ob(key, cond))  # will be re-decided and reported by the normal discharge
+        else:
+            self.obs.append(Ob(key, cond))
 
     def ob_eq(self, key, a, b, chain=False):
         self.obs.append(Ob(key, self.eq(a, b), chain))
